@@ -141,6 +141,33 @@ def run(ctx):
         x = W.expand(term[2][0])
         rels = flow.rel_facts_at(IN, bb)
         okr = False
+        # the inner search written as `SUPPORTED_VERSIONS.iter().find(|v| v.wire_bytes() == entry)` inside the loop over the entries
+        xf = values.strip_payload(x)
+        for _ in range(3):
+            if is_call(xf) and callee_name(xf[1]) in ("copied", "cloned", "deref") and xf[2]:
+                xf = values.strip_payload(W.expand(xf[2][0]))
+        if is_call(xf) and callee_name(xf[1]) == "find" and len(xf[2]) == 2 and isinstance(xf[2][1], tuple) and xf[2][1][0] == "closure" and xf[2][1][1] in P.fns:
+            c2 = xf[2][1][1]
+            cont = values.strip_payload(W.expand(xf[2][0]))
+            if isinstance(cont, tuple) and cont and cont[0] == "obj":
+                ini_ = W.obj_init(cont)
+                cont = W.expand(ini_) if ini_ is not None else cont
+            oke2 = values.contains(cont, lambda s_: isinstance(s_, tuple) and s_ and s_[0] == "arr")
+            r2 = W.ev(c2).ret()
+            okr2 = False
+            if is_call(r2) and callee_name(r2[1]) == "eq" and len(r2[2]) == 2:
+                sides = list(r2[2])
+                wb = [y for y in sides if is_call(y, "Version::wire_bytes") and y[2][0] == ("param", c2, 2)]
+                other = [y for y in sides if not is_call(y, "Version::wire_bytes")]
+                cap = xf[2][1][2]
+                ent = W.expand(cap[0]) if cap else None
+                is_entry = ent is not None and (iter_elem(W, ent) is not None or values.contains(ent, lambda q: is_call(q) and callee_name(q[1]) in ("chunks", "chunks_exact")))
+                okr2 = bool(wb) and len(other) == 1 and other[0] == ("field", ("param", c2, 1), "0") and len(cap) == 1 and is_entry
+            ctx.check("version-scan", "match-is-wire-equality", okr2, "an element is returned only where its wire_bytes() equal the request's entry (find predicate)",
+                      "the search predicate is %s" % fmt(r2), fn.loc(bb))
+            ctx.check("version-scan", "match-is-supported-element", oke2, "the version returned is an element of SUPPORTED_VERSIONS (find over its iterator)",
+                      "the version is searched in %s" % fmt(cont)[:160], fn.loc(bb))
+            continue
         for r in rels:
             if r[0] == "Eq" and r[1][0] != "discr":
                 sides = [W.expand(r[1]), W.expand(r[2])]
